@@ -14,6 +14,7 @@ import PrqlModel.Drv.Clause
 import PrqlModel.Drv.Window
 import PrqlModel.Drv.Lit
 import PrqlModel.Drv.Names
+import PrqlModel.Drv.Text
 namespace Drv
 
 def handlers : List (List String → Option String) := [
@@ -26,7 +27,8 @@ def handlers : List (List String → Option String) := [
   Drv.Clause.handle,
   Drv.Window.handle,
   Drv.Lit.handle,
-  Drv.Names.handle
+  Drv.Names.handle,
+  Drv.Text.handle
 ]
 
 def handle (fields : List String) : String :=
